@@ -100,7 +100,7 @@ static cregex_program_instr_t* compile_char_class(
   const char *sp = node->from;
 
   for ( ; ; ) {
-    int ch = *sp++;
+    int ch = (unsigned char) *sp++;
     switch (ch) {
       case ']':
         if (sp - 1 == node->from) {
@@ -108,12 +108,12 @@ static cregex_program_instr_t* compile_char_class(
         }
         return instruction;
       case '\\':
-        ch = *sp++;
+        ch = (unsigned char) *sp++;
       /* fall-through */
       default:
 CHARACTER:
         if (*sp == '-' && sp[1] != ']') {
-          for ( ; ch <= sp[1]; ++ch) {
+          for ( ; ch <= (unsigned char) sp[1]; ++ch) {
             cregex_char_class_add(instruction->klass, ch);
           }
           sp += 2;
